@@ -98,7 +98,7 @@ class C05(StructCheck):
         hashes = {}
         for l in r.stdout.splitlines():
             a = l.split()
-            if len(a) == 2: hashes[int(a[0])] = int(a[1])
+            if len(a) == 2 and int(a[0]) > 0: hashes[int(a[0])] = int(a[1])    # id 0 would print like NULL
         ctx['hashes'] = hashes
         ctx['pools'] = G.MapPools(hashes, 256)
         return True, ''
@@ -163,39 +163,37 @@ class C05(StructCheck):
                     if dup and rm: res.append(('callback iteration with removal visited an entry twice', 'map-iter-remove-double-visit'))
                     elif dup: res.append(('callback iteration visited an entry twice', None))
             elif t[0] == 'itrnew' and out == ['p1']:
-                start = set(live); seen = []; removed_any = False
-                j = i + 1; exhausted = False
+                # a walk is judged only if every position was read with itrkey right after
+                # itrnew / itrnext, and the walk ran until the iterator was exhausted
+                start = set(live); vis = []; removed_any = False
+                fresh = True; removed_state = False; checkable = True; exhausted = False
+                j = i + 1
                 while j < len(body):
                     tj = body[j].split(); oj = ctr[j].split()
                     if tj[0] == 'itrkey':
-                        if oj[0] != 'p0': seen.append(int(oj[0][1:]))
+                        if oj[0] == 'p0':
+                            if not removed_state: exhausted = True; j += 1; break
+                        elif fresh: vis.append(int(oj[0][1:])); fresh = False
                     elif tj[0] == 'itrrm':
-                        if oj and oj[-1] == 'r0' and seen: live.pop(seen[-1], None); removed_any = True
+                        if fresh: checkable = False
+                        if oj and oj[-1] == 'r0' and vis:
+                            live.pop(vis[-1], None); removed_any = True; removed_state = True
                     elif tj[0] == 'itrnext':
-                        pass
-                    elif tj[0] in ('itrget', 'itrset', 'len'):
+                        if fresh: checkable = False
+                        fresh = True; removed_state = False
+                    elif tj[0] in ('itrget', 'itrset', 'len', 'get', 'has'):
                         pass
                     else:
                         break
                     j += 1
-                # was the walk complete? (an itrkey returned p0 after a next, i.e. iterator freed)
-                # we detect completion by a trailing itrkey == p0 or by itrnext count >= len(start)
-                nexts = sum(1 for q in range(i + 1, j) if body[q].startswith('itrnext'))
-                keys_q = [(q, ctr[q]) for q in range(i + 1, j) if body[q] == 'itrkey']
-                complete = any(o == 'p0' for _, o in keys_q)
-                # consecutive itrkey without next in between see the same key: dedupe by position
-                vis = []; lastnext = True
-                for q in range(i + 1, j):
-                    if body[q].startswith('itrnext'): lastnext = True
-                    elif body[q] == 'itrkey' and ctr[q] != 'p0':
-                        if lastnext: vis.append(int(ctr[q][1:]))
-                        lastnext = False
-                if complete:
+                if exhausted and checkable:
                     if len(vis) != len(set(vis)):
                         res.append(('iterator walk visited an entry twice' + (' (with removal)' if removed_any else ''),
                                     'map-iter-remove-double-visit' if removed_any else None))
                     missed = start - set(vis)
                     if missed: res.append(('iterator walk missed live entries %s' % sorted(missed)[:5], None))
+                    extra = set(vis) - start
+                    if extra: res.append(('iterator walk yielded keys that were not live %s' % sorted(extra)[:5], None))
                 i = j - 1
             i += 1
         return res
